@@ -434,7 +434,7 @@ impl<P: Payload> World<P> {
         }
         drop(cl);
         if free.len() >= 2 {
-            d.nt.push(("C07", fnv(&format!("drain|{:?}", free.len()))));
+            d.nt.push(("C07", fnv(&format!("drain|{:?}|{}", free, self.m.shape()))));
         }
     }
 
